@@ -44,11 +44,24 @@ func init() {
 	externDoc["errors.Is"] = "errors.Is(err, target) is the reflexive-transitive closure of the ghost wraps relation"
 }
 
+func (vc *VC) strFmtArray() string {
+	if !vc.declared["g_strfmt"] {
+		vc.declared["g_strfmt"] = true
+		vc.decls = append(vc.decls, "(declare-const g_strfmt (Array Int Int))")
+	}
+	return "g_strfmt"
+}
+
 func mFreshString(fr *Frame, ins ssa.Instruction, fn *ssa.Function, args []*Val) *Val {
 	vc := fr.vc
 	n := vc.fresh(fr.prefix+"_slen", "Int")
 	vc.assume(and(le("0", n), le(n, maxCap)))
 	base := fr.alloc(types.Typ[types.Uint8], n)
+	if fn != nil && fn.String() == "fmt.Sprintf" && len(args) > 0 && isLit(args[0].L[0]) {
+		// ghost: which constant format produced this string (the literal parts of
+		// the format appear in the result - trusted model of fmt.Sprintf)
+		vc.assume(imp(fr.reach, eq(sel(vc.strFmtArray(), base), args[0].L[0])))
+	}
 	return &Val{T: types.Typ[types.String], L: []string{base, n}}
 }
 
